@@ -59,10 +59,10 @@ var palette = []string{
 // representatives inside the name classes of ProjectCases.tla (Class)
 var (
 	wsReps    = []string{" ", "\t", "  ", "\n", "\u00a0", " \t", "\r\n"} // a key of white space only
-	padReps   = []string{" ", "\t", "  ", "\u00a0"}                     // white space in front of / behind a name
+	padReps   = []string{" ", "\t", "  ", "\u00a0"}                      // white space in front of / behind a name
 	sepReps   = []string{",", ";", "|", ", "}                            // list separators inside one name
-	pathReps  = []string{".", "/", ":", ".."}                           // path separators inside one name
-	innerReps = []string{" ", "\t", "  "}                               // white space inside one name
+	pathReps  = []string{".", "/", ":", ".."}                            // path separators inside one name
+	innerReps = []string{" ", "\t", "  "}                                // white space inside one name
 )
 
 // concrete gives the concrete key for the abstract name `n` of class `cls` in corpus number `k`.
